@@ -190,11 +190,33 @@ where
         let mut operands = vec![];
         for (k, v) in self.0.iter() {
             operands.push(k.clone());
-            if v.is_var() {
-                operands.push(v.clone());
-            }
+            Self::collect_vars(v, &mut operands);
         }
         operands
+    }
+
+    /// Collects the variables of the term `v`, including those nested in lists and compounds.
+    fn collect_vars(v: &LTerm<U, E>, vars: &mut Vec<LTerm<U, E>>) {
+        fn collect_object_vars<U: User, E: Engine<U>>(
+            object: &dyn CompoundObject<U, E>,
+            vars: &mut Vec<LTerm<U, E>>,
+        ) {
+            for child in object.children() {
+                match child.as_term() {
+                    Some(term) => SMap::collect_vars(term, vars),
+                    None => collect_object_vars(child, vars),
+                }
+            }
+        }
+        match v.as_ref() {
+            LTermInner::Var(_, _) => vars.push(v.clone()),
+            LTermInner::Cons(head, tail) => {
+                Self::collect_vars(head, vars);
+                Self::collect_vars(tail, vars);
+            }
+            LTermInner::Compound(object) => collect_object_vars(object.as_ref(), vars),
+            _ => (),
+        }
     }
 }
 
